@@ -1413,7 +1413,9 @@ struct array : static_array<T, D, Alloc> {
 	auto assign(It first, It last) -> array& {
 		using std::all_of;
 		using std::next;
-		if(adl_distance(first, last) == this->size()) {
+		auto const count = adl_distance(first, last);
+		// the elements can be assigned in place only if the whole shape (not just the leading size) is the same
+		if(count == this->size() && (count == 0 || typename array::layout_t{typename array::index_extension(count) * multi::extensions(*first)}.sizes() == this->sizes())) {
 			static_::ref::assign(first);
 		} else {
 			this->operator=(array(first, last));
